@@ -19,7 +19,9 @@ THEOREMS = [P + t for t in ("flow_is_modelled", "inv_init", "inv_step", "inv_rea
                               "ddelall_keeps_counters", "dclone_onto_existing_skips", "dclone_eq", "dhomed_reachable",
                               "dclone_eq_reachable", "dclone_independent", "failed_call_changes_nothing",
                               "refused_calls_are_invisible", "import_targets_are_modelled", "import_entry_frame",
-                              "direct_import_entry_frame")]
+                              "direct_import_entry_frame", "idless_import_creates_new_graph", "idless_imports_do_not_meet",
+                              "didless_import_creates_new_graph", "lookalike_ids_are_other_graphs",
+                              "dlookalike_ids_are_other_graphs")]
 TRUSTED_BASE = [
     "Model/Store.lean, Model/DStore.lean mirror NetworkXGraphStorage / NetworkXGraphStorageDisjoint / NetworkXPropertyGraph "
     "method by method (hand-written; checked differentially after every operation: reply, whole store by internal id, start_id)",
@@ -44,6 +46,14 @@ TRUSTED_BASE = [
     "networkx's GraphML / node-link writers and readers are trusted to carry the documents the harness writes (checked: a document "
     "that does not read back as the request's graph is handed to the store's own entry point instead); an empty document, and a "
     "direct import whose nodes do not all name the addressed graph, are only driven through the store's entry point",
+    "id-less imports: an add_graph request into an id that holds no nodes is, in half of the importer-served cases, a call of "
+    "import_graph_from_string / import_graph_from_file WITHOUT graph_id; which id the library mints is made the request's id "
+    "(lib_store.minting stands in for uuid.uuid1 / uuid4 during the call), so the model's `add_graph g` with g not in use is the "
+    "lowering ImportEntry.target .idless describes; that the ids the library mints on its own are new - also for documents that "
+    "name a graph on every node - is gen/importids.py's probe.  A third of the documents name one graph on all nodes",
+    "graph ids are opaque strings compared by equality in the models; the implementation is run over look-alike ids (substring "
+    "/ prefix / suffix of one another, one character, empty only in the filter probe, differing in case or blanks, regex-like) in "
+    "every third random history, every other small-scope history and gen/storeflow.py's filter probe (four id families)",
     "a graph HANDLE is stateless in the models: Store.step / DStore.step take the graph id inside the operation and the store, "
     "nothing else - whatever a NetworkXPropertyGraph object keeps between calls (caches, memos, anything left behind by a call "
     "that failed) has no counterpart.  Checked, not assumed: the implementation side of the correspondence and of the oracle is "
@@ -80,7 +90,11 @@ RULE = ("corpus first, then operation histories (<= 30 ops) over 2-4 graph ids a
         "entry points on a document - string or work file (one or two paths per history, overwritten before each load), GraphML or "
         "JSON, direct or under the caller's id - the others through the store's add_graph / add_graph_direct with colliding node keys; "
         "the returned handle must be for the addressed graph; plus all histories of depth 3 / 4 over 7 operations (documents of two "
-        "graphs, two versions, direct and named, add_node, delete_graph) through ONE work file, in both formats")
+        "graphs, two versions, direct and named, add_node, delete_graph) through ONE work file, in both formats, every load into an "
+        "empty id once under the caller's id and once WITHOUT a graph id; a third of the documents handed to add_graph name one "
+        "graph (the target, another graph of the history, none) on all nodes, and half of the importer-served add_graph requests "
+        "into an id holding no nodes are id-less calls; every third random history and every other small-scope history runs over "
+        "look-alike graph ids (LOOKALIKE_IDS)")
 
 CORPUS = os.path.join(core.CORPUS_DIR, "C04")
 
@@ -101,6 +115,9 @@ def colliding_keys(rng):
         return rng.sample(range(1, 14), n)
     return keys
 
+
+# with entry "importer": how often an add_graph into an id that holds no nodes is an importer call WITHOUT graph_id
+IDLESS = 0.5
 
 HANDLE_CYCLE = ["one", "one", "two", "fresh", "one", "two"]
 
@@ -188,11 +205,53 @@ def workfile_scenario(rng, gids, nids):
     return copy.deepcopy(h + more[:rng.randint(2, 7)])
 
 
+# graph ids that LOOK ALIKE: one id a substring / prefix / suffix of another, a one-character id, ids differing in case or
+# by surrounding blanks, an id that reads like a number, like a regular expression, like the name of a property.  Whatever
+# picks the nodes of "the graph with this id" - a query operator, a key of a dictionary, a prefix of a composed key - has to
+# mean EQUALITY of ids.  Every third random history is run under one of these renamings of g1..g4 (same requests otherwise).
+LOOKALIKE_IDS = [
+    {"g2": "g1-v2"}, {"g1": "exp", "g2": "exp-v2", "g3": "v2"}, {"g2": "g", "g3": "g33"}, {"g1": "g10", "g2": "g1", "g3": "0"},
+    {"g1": "1", "g2": "11", "g3": "111"}, {"g2": "G1", "g3": " g1"}, {"g1": "g.", "g2": "g.*", "g3": "gx"},
+    {"g1": "GraphID", "g2": "g1g2", "g3": "g2g1"}, {"g3": "g1g2", "g4": "2"}, {"g1": "a", "g2": "b", "g3": "ab", "g4": "ba"},
+    # ... and node ids that look alike next to them (whatever finds "the node with this id in this graph" means equality too)
+    {"g2": "g1-v2", "n2": "n1-b", "n3": "n"}, {"g1": "exp", "g2": "exp-v2", "n1": "n2n", "n4": "N2"},
+]
+
+
+def rename_ids(h, ren):
+    """the same history over other graph ids: every whole string equal to a key of `ren` (graph ids in requests, GraphID
+    values in documents and updates) is replaced; node ids, names and everything else stay"""
+    def go(x):
+        if isinstance(x, str):
+            return ren.get(x, x)
+        if isinstance(x, list):
+            return [go(y) for y in x]
+        if isinstance(x, dict):
+            return {k: go(v) for k, v in x.items()}
+        return x
+    return go(h)
+
+
+def name_a_graph(rng, h, gids):
+    """documents as they are SAVED name a graph on every node (serialize_graph keeps GraphID): a third of the documents
+    handed to add_graph carry one graph id - of the graph they are loaded as, of another graph of the history, of none -
+    on all their nodes.  add_graph files the document under the id of the CALL (the caller's or, for an id-less call, a new
+    one), whatever the document says."""
+    for r in h:
+        if r[0] == "add_graph" and r[2]["nodes"] and rng.random() < 0.35:
+            g = rng.choice(list(gids) + list(gids) + ["zz"])
+            for a in r[2]["nodes"]:
+                a[L.GRAPH_ID] = g
+    return h
+
+
 def histories(ctx, tag, n, length):
     """[(flavours, history, handle mode, entry mode, entry plan)]"""
     rng = ctx.sub_rng(tag)
     rng2 = ctx.sub_rng(tag + "-refused")
     rng3 = ctx.sub_rng(tag + "-workfile")
+    rng4 = ctx.sub_rng(tag + "-docid")
+    rng5 = ctx.sub_rng(tag + "-lookalike")
     hs = [(c["flavours"], c["history"], c.get("handles", "one"), c.get("entry", "store"), c.get("plan")) for c in load_corpus()]
     for i in range(n):
         h = L.gen_history(rng, rng.randint(6, length), ngraphs=rng.choice([2, 3, 3, 4]),
@@ -213,6 +272,10 @@ def histories(ctx, tag, n, length):
             for r in pre:
                 sh.note(r)
             h = pre + [sh.aim(rng3, L.gen_op(rng3, gids, ["n1", "n2", "n3", "n4"], merge=True), gids) for _ in range(rng3.randint(0, 8))]
+        import copy
+        h = name_a_graph(rng4, copy.deepcopy(h), ["g1", "g2", "g3"])
+        if i % 3 == 1:
+            h = rename_ids(h, rng5.choice(LOOKALIKE_IDS))
         hs.append((["shared", "disjoint"], h, handle_mode(i), entry_mode(i), None))
     return hs
 
@@ -224,6 +287,7 @@ def run_impl(flavour, h, seed, handles="one", entry="store", plan=None, res=None
     import random
     be = L.Backend(flavour, handles=handles, hseed=seed, entry=entry, plan=plan)
     be.import_keys = colliding_keys(random.Random(seed))
+    be.idless = IDLESS
     out = []
     try:
         for req in h:
@@ -336,6 +400,7 @@ def check_history(flavour, h, res, seed=0, handles="one", probe="every", entry="
     import random
     be = L.Backend(flavour, handles=handles, hseed=seed, entry=entry, plan=plan)
     be.import_keys = colliding_keys(random.Random(seed))
+    be.idless = IDLESS
     try:
         return _check_history(be, flavour, h, res, seed, handles, probe, entry, plan)
     finally:
@@ -371,7 +436,7 @@ def _check_history(be, flavour, h, res, seed, handles, probe, entry, plan):
             # something remembered about the string, the path or an earlier call; the handle it returns is for that graph
             via, fmt, slot, rid = be.last_import
             res.count("%s:import-via:%s:%s:%s" % (flavour, op, via, fmt))
-            if via == "file":
+            if via.startswith("file"):
                 if loaded.get(slot, tgt) != tgt:
                     res.count("%s:work-file-reloaded-with-another-graph:%s" % (flavour, op))
                 loaded[slot] = tgt
@@ -514,6 +579,10 @@ def oracle(ctx, res, n=None, length=30, depth=None):
     cnt = 0
     for tail in itertools.product(A, repeat=depth):
         h = [copy.deepcopy(seed_two)] + [copy.deepcopy(r) for r in tail]
+        if cnt % 2 == 1:
+            # every other history over look-alike ids: the second graph's id contains the first's, or the other way round
+            h = rename_ids(h, {"g2": "g1-v2"} if cnt % 4 == 1 else {"g1": "g2g"})
+            res.count("exhaustive-lookalike-ids")
         for flavour in ("shared", "disjoint"):
             check_history(flavour, h, res, seed=cnt, handles="one", probe="last")
         cnt += 1
@@ -539,11 +608,16 @@ def oracle(ctx, res, n=None, length=30, depth=None):
         h = [copy.deepcopy(r) for r in tail]
         if sum(1 for r in h if r[0].startswith("add_graph")) < 2:
             continue
+        # ... every load under a caller's id; and, where the history has such loads, every load into an id that holds
+        # nothing WITHOUT a graph id (the documents name g1 / nothing: the library's new id decides, not the document)
+        vias = ["file"] + (["file-idless"] if any(r[0] == "add_graph" for r in h) else [])
         for fmt in L.ENTRY_FMTS:
-            plan = {str(k): ["file", fmt, 0] for k in range(len(h))}
-            for flavour in ("shared", "disjoint"):
-                check_history(flavour, h, res, seed=cnt3, handles="one", probe="last", entry="importer", plan=plan)
-                cnt3 += 1
+            for via in vias:
+                plan = {str(k): [via, fmt, 0] for k in range(len(h))}
+                for flavour in ("shared", "disjoint"):
+                    check_history(flavour, h, res, seed=cnt3, handles="one", probe="last", entry="importer", plan=plan)
+                    cnt3 += 1
+                    res.count("exhaustive-workfile-via-%s" % via)
     res.evaluations += cnt3
     res.count("exhaustive-workfile-depth-%d-over-%d-ops" % (depth, len(W)), cnt3)
     res.sample({"flavours": hs[-1][0], "history": hs[-1][1][:5],
